@@ -8,12 +8,15 @@ package exec
 
 import (
 	"bytes"
+	"container/heap"
 	"context"
 	"encoding/gob"
 	"fmt"
 	"reflect"
+	"time"
 
 	"github.com/grailbio/base/retry"
+	"github.com/grailbio/bigmachine"
 	"github.com/grailbio/bigslice"
 	"github.com/grailbio/bigslice/frame"
 	"github.com/grailbio/bigslice/slicefunc"
@@ -156,3 +159,130 @@ func VerifTaskState(t *Task) TaskState { return t.State() }
 // VerifTaskInvocation returns the invocation stored in a compiled task,
 // which is what the bigmachine executor transports to workers.
 func VerifTaskInvocation(t *Task) VerifInvocation { return VerifInvocation{t.Invocation} }
+
+// VerifReq and VerifMach describe a scheduling request and a machine for
+// VerifSchedule.
+type (
+	VerifReq  struct{ Priority, Procs int }
+	VerifMach struct{ MaxTaskProcs, TaskProcs int }
+)
+
+// VerifSchedule builds the two priority queues from reqs and machs (pushed
+// in order), calls schedule once, and reports the chosen request and
+// machine (indices into reqs and machs, -1 if none), what the queues hold
+// afterwards (as indices), and whether the heap index fields are consistent.
+func VerifSchedule(reqs []VerifReq, machs []VerifMach) (req, mach int, reqsAfter, machsAfter []int, indexOK bool) {
+	var (
+		schedQ scheduleRequestQ
+		machQ  machineQ
+		rs     = make([]*scheduleRequest, len(reqs))
+		ms     = make([]*sliceMachine, len(machs))
+	)
+	for i, r := range reqs {
+		rs[i] = &scheduleRequest{priority: r.Priority, procs: r.Procs}
+		heap.Push(&schedQ, rs[i])
+	}
+	for i, m := range machs {
+		ms[i] = &sliceMachine{maxTaskProcs: m.MaxTaskProcs, taskProcs: m.TaskProcs}
+		heap.Push(&machQ, ms[i])
+	}
+	r, m := schedule(&schedQ, &machQ)
+	req, mach = -1, -1
+	for i := range rs {
+		if rs[i] == r {
+			req = i
+		}
+	}
+	for i := range ms {
+		if ms[i] == m {
+			mach = i
+		}
+	}
+	indexOK = true
+	for i, x := range schedQ {
+		if x.index != i {
+			indexOK = false
+		}
+		for j := range rs {
+			if rs[j] == x {
+				reqsAfter = append(reqsAfter, j)
+			}
+		}
+	}
+	for i, x := range machQ {
+		if x.index != i {
+			indexOK = false
+		}
+		for j := range ms {
+			if ms[j] == x {
+				machsAfter = append(machsAfter, j)
+			}
+		}
+	}
+	return
+}
+
+// VerifManager wraps a machineManager running over a bigmachine system.
+type VerifManager struct {
+	m      *machineManager
+	b      *bigmachine.B
+	cancel func()
+}
+
+// VerifNewManager starts a machineManager as the bigmachine executor does.
+func VerifNewManager(system bigmachine.System, maxp int, maxLoad float64) *VerifManager {
+	b := bigmachine.Start(system)
+	ctx, cancel := context.WithCancel(context.Background())
+	m := newMachineManager(b, nil, nil, maxp, maxLoad, &worker{})
+	go m.Do(ctx)
+	return &VerifManager{m, b, cancel}
+}
+
+// Is tells whether snap belongs to this manager.
+func (v *VerifManager) Is(snap VerifManagerSnapshot) bool { return snap.Manager == v.m }
+
+// MachProcs returns the number of task procs per machine.
+func (v *VerifManager) MachProcs() int { return v.m.machprocs }
+
+// Close stops the manager and shuts the cluster down.
+func (v *VerifManager) Close() {
+	v.cancel()
+	v.b.Shutdown()
+}
+
+// VerifOffer is an outstanding request for a machine.
+type VerifOffer struct {
+	c      <-chan *sliceMachine
+	cancel func()
+}
+
+// Offer calls (*machineManager).Offer.
+func (v *VerifManager) Offer(priority, procs int) *VerifOffer {
+	c, cancel := v.m.Offer(priority, procs)
+	return &VerifOffer{c, cancel}
+}
+
+// Cancel cancels the request.
+func (o *VerifOffer) Cancel() { o.cancel() }
+
+// VerifMachine is a granted machine.
+type VerifMachine struct{ m *sliceMachine }
+
+// Recv waits for the request to be granted, for at most d.
+func (o *VerifOffer) Recv(d time.Duration) (VerifMachine, bool) {
+	select {
+	case m := <-o.c:
+		return VerifMachine{m}, true
+	case <-time.After(d):
+		return VerifMachine{}, false
+	}
+}
+
+// Addr returns the machine's address.
+func (m VerifMachine) Addr() string { return m.m.Addr }
+
+// Machine returns the underlying bigmachine machine.
+func (m VerifMachine) Machine() *bigmachine.Machine { return m.m.Machine }
+
+// Done returns procs to the manager, reporting err.
+func (m VerifMachine) Done(procs int, err error) { m.m.Done(procs, err) }
